@@ -3,7 +3,7 @@ import re
 
 from hypothesis import strategies as st
 
-from pbt import inputs, pyoracle
+from pbt import inputs, pyoracle, widegen
 from pbt.engine import load_known_findings
 from pbt.worker import outcome
 
@@ -12,7 +12,8 @@ INTS = ["0", "7", "007", "00", "0123", "1_000", "12345678901234567890123", "0x10
 STRS = ['""', '"a"', '"a\\"b"', '"a\\\\"', '"\\n"', '"\\"', '"{"', '"}"', '"{}"', '"{{"', '"}}"', '"{{}}"', '"{x}"',
         '"{ x }"', '"{x}{x}"', '"{x + 1}"', '"{"q"}"', '"{x}\\\\"', '"a\nb"', '"a\n{x}\nb"', '"\'"', '"\'\'\'"',
         '"""doc"""', '"""d"c"""', '"""a\nb"""', '"""\\"""', '"é"', '"\\x"', '"\\{x\\}"', '"%s"', '"{x!r}"', '"{x:>3}"',
-        '"{x = }"', '"#"', '"a # b"', '"\\t"', '"{x}" + "{x}"']
+        '"{x = }"', '"#"', '"a # b"', '"\\t"', '"{x}" + "{x}"', '"a \\{ b"', '"a \\{ b {x}"', '"{x} \\}"', '"a\r\nb"', '"a\rb"',
+        '"a\r\n{x}"', '"\\r"', '"\\0"', '"\\1"', '"a\fb"', '"a\x0bb"', '"tab\there"', '"{x}\r"']
 IDS = ["lambda", "try", "global", "yield", "del", "assert", "async", "await", "except", "finally", "nonlocal", "elif",
        "print", "exec", "True_", "None_", "_x", "__x__", "x1", "X", "list", "str", "int", "type_", "object", "super",
        "cls", "ClassName"]
@@ -69,6 +70,86 @@ def literal_stress(draw):
     ]))}
 
 
+PARAMS = ["a: Int", "b: Str", "fin c: Int", "d: Int := 1", "e: Str := \"s\"", "vararg v: Int", "vararg w: Str", "a: Int",
+          "g: () -> Int", "h: (Int) -> Int", "k: (Int, Str) -> Bool", "m: () -> ()", "n: (() -> Int) -> Int", "t: (Int, Str)",
+          "u: {Int, Str}", "o: Int?", "l: List[Int]", "q: Dict[Str, Int]", "r: (Int?, Str)", "s: List[(Int, Str)]",
+          "x: () -> Int?", "y: {() -> Int, Int}"]
+TARGETS = ["x", "x: Int", "fin x", "(a, b)", "(a, b): (Int, Int)", "fin (a, b)", "(a, (b, c))"]
+BLOCK_IF = "if c then\n{i}    print(1)\n{i}    {v1}\n{i}else\n{i}    print(2)\n{i}    {v2}"
+BLOCK_MATCH = "match n\n{i}    1 =>\n{i}        print(1)\n{i}        {v1}\n{i}    _ =>\n{i}        {v2}"
+
+
+@st.composite
+def shape_stress(draw):
+    """Signatures, definition targets x initialiser forms, value positions: shapes where the generator has to choose between
+    an expression and a statement form, or has to print a list that may be empty."""
+    kind = draw(st.sampled_from(["signature", "signature", "target_init", "target_init", "value_position", "nested_ternary"]))
+    if kind == "signature":
+        n = draw(st.integers(0, 3))
+        ps = [draw(st.sampled_from(PARAMS)) for _ in range(n)]
+        where = draw(st.sampled_from(["def", "method", "class_args", "lambda", "interface", "init"]))
+        ret = draw(st.sampled_from(["", " -> Int", " -> () -> Int", " -> (Int, Str)", " -> {Int, Str}", " -> Int?"]))
+        sig = ", ".join(ps)
+        if where == "def":
+            src = "def f(%s)%s => pass\n" % (sig, ret if ret == "" else "")
+            if ret:
+                src = "def f(%s)%s\n" % (sig, ret)
+        elif where == "method":
+            src = "class K\n    def m(self%s) => pass\n" % ((", " + sig) if sig else "")
+        elif where == "class_args":
+            src = "class K(%s)\n" % ", ".join(("def " + p) if draw(st.booleans()) and not p.startswith(("vararg", "fin")) else p
+                                              for p in ps)
+        elif where == "lambda":
+            names = [p.split(":")[0].replace("fin ", "").replace("vararg ", "") + ": Int" for p in ps]
+            src = "def g := \\%s => 1\n" % ", ".join(names)
+        elif where == "interface":
+            src = "type T\n    def m(self%s)%s\n" % ((", " + sig) if sig else "", ret)
+        else:
+            src = "class K\n    def __init__(self%s) => pass\n" % ((", " + sig) if sig else "")
+        return {"gen": "shape-signature", "src": src}
+    vals = {"x": ("1", "2"), "x: Int": ("1", "2"), "fin x": ("1", "2"), "(a, b)": ("(1, 2)", "(3, 4)"),
+            "(a, b): (Int, Int)": ("(1, 2)", "(3, 4)"), "fin (a, b)": ("(1, 2)", "(3, 4)"), "(a, (b, c))": ("(1, (2, 3))", "(4, (5, 6))")}
+    if kind == "target_init":
+        t = draw(st.sampled_from(TARGETS))
+        v1, v2 = vals[t]
+        form = draw(st.sampled_from(["plain", "if_line", "if_block", "match_block", "handle", "if_block_in_fun", "match_in_method"]))
+        head = "def c := True\ndef n := 1\nclass E(m: Str): Exception(m)\ndef hr() -> Int raise [E] => 1\n"
+        if form == "plain":
+            body = "def %s := %s\n" % (t, v1)
+        elif form == "if_line":
+            body = "def %s := if c then %s else %s\n" % (t, v1, v2)
+        elif form == "if_block":
+            body = "def %s := %s\n" % (t, BLOCK_IF.format(i="", v1=v1, v2=v2))
+        elif form == "match_block":
+            body = "def %s := %s\n" % (t, BLOCK_MATCH.format(i="", v1=v1, v2=v2))
+        elif form == "handle":
+            hv = "hr()" if t.startswith(("x", "fin x")) else "(hr(), hr())" if "(b, c)" not in t else "(hr(), (hr(), hr()))"
+            body = "def %s := %s handle\n    e: E =>\n        print(1)\n        %s\n" % (t, hv, v2)
+        elif form == "if_block_in_fun":
+            body = "def f() =>\n    def %s := %s\n    print(1)\nf()\n" % (t, BLOCK_IF.format(i="    ", v1=v1, v2=v2))
+        else:
+            body = "class K\n    def m(self) =>\n        def %s := %s\n        print(1)\n" % (t, BLOCK_MATCH.format(i="        ", v1=v1, v2=v2))
+        return {"gen": "shape-target-init", "src": head + body}
+    if kind == "value_position":
+        form = draw(st.sampled_from(["if_block", "match_block", "if_line"]))
+        v = {"if_block": BLOCK_IF.format(i="", v1="1", v2="2"), "match_block": BLOCK_MATCH.format(i="", v1="1", v2="2"),
+             "if_line": "if c then 1 else 2"}[form]
+        pos = draw(st.sampled_from(["x := %s", "x += %s", "print(%s)", "def l := [%s]", "def y := 1 + (%s)", "g(%s)",
+                                    "def t := (%s, 1)", "def s := \"{%s}\"", "for i in 0 .. (%s) do print(i)",
+                                    "while x < (%s) do x += 1", "if (%s) > 1 then print(1)", "def d := {1 => %s}"]))
+        if form != "if_line" and ("{" in pos or "(%s)" in pos):
+            pos = "x := %s"
+        src = "def c := True\ndef n := 1\ndef x := 0\ndef g(k: Int) => print(k)\n" + (pos % v) + "\n"
+        return {"gen": "shape-value-position", "src": src}
+    # nested ternaries where a branch is a block
+    inner = draw(st.sampled_from(["if c then 2 else 3", BLOCK_IF.format(i="", v1="2", v2="3"), "if c then\n    4\nelse 5",
+                                  BLOCK_MATCH.format(i="", v1="2", v2="3")]))
+    outer = draw(st.sampled_from(["def x := if c then 1 else %s", "def x := if c then %s else 1", "def x: Int := if c then 1 else %s",
+                                  "def f() -> Int => if c then 1 else %s", "x := if c then 1 else %s", "print(if c then 1 else %s)"]))
+    src = "def c := True\ndef n := 1\ndef x := 0\n".replace("def x := 0\n", "" if outer.startswith("def x") else "def x := 0\n")
+    return {"gen": "shape-nested-ternary", "src": src + (outer % inner) + "\n"}
+
+
 def _known_input_classes(prop_id):
     out = []
     for f in load_known_findings():
@@ -94,7 +175,7 @@ class C02:
         self._classes = _known_input_classes(self.id)
 
     def strategy(self, tier, switches):
-        return st.one_of(inputs.sources(kinds=("core", "expr", "mut", "mut")), literal_stress())
+        return st.one_of(inputs.sources(kinds=("core", "expr", "mut", "mut")), literal_stress(), shape_stress(), widegen.programs())
 
     def fixed_cases(self, tier, switches):
         return inputs.all_seed_cases()
@@ -105,6 +186,8 @@ class C02:
     def check(self, worker, case, stats):
         src = case["src"]
         stats.inc("gen:" + case.get("gen", "?"))
+        for sn in case.get("snippets", []):
+            stats.inc("wide_snippet:" + sn)
         if not self.strict:
             for fid, rx in self._classes:
                 if rx.search(src):
